@@ -417,6 +417,25 @@ class Vec:
     def getSubVec(a, n, start): return Vec(a.e[start:start + n])
     def sum(a): return sum(a.e[1:], a.e[0])
     def asVec4(a): return a            # Quaternion_ is a Vec4 (the shims pass quaternions around as Vec)
+    # C++ Vec == / != (all elements equal / some element differs): a concrete bool when decidable, else a z3 term (so that a
+    # comparison guarding real code becomes a path condition instead of Python's identity comparison)
+    __hash__ = object.__hash__
+    def __eq__(a, b):
+        if is_scalar(b):
+            b = [b] * len(a.e)
+        elif isinstance(b, Vec) and len(b.e) == len(a.e):
+            b = b.e
+        else:
+            return NotImplemented
+        if not all(isinstance(x, D) for x in a.e) or not all(isinstance(y, D) or is_scalar(y) for y in b):
+            return a is b
+        t = z3.simplify(z3.And(*[val(x) == val(_z(y)) for x, y in zip(a.e, b)]))
+        return True if z3.is_true(t) else False if z3.is_false(t) else t
+    def __ne__(a, b):
+        r = a.__eq__(b)
+        if r is NotImplemented:
+            return r
+        return (not r) if isinstance(r, bool) else z3.Not(r)
 
 
 class Row(Vec):
